@@ -42,7 +42,7 @@ k3/gin.singleton.constructor = @c18.Falsy
 c18.user3b.x = @k3/gin.singleton()
 c18.user4.x = @k4/gin.singleton()
 k4/gin.singleton.constructor = @c18.make_none
-"""
+""" + 'c18.user_o1.x = @ko1/gin.singleton()\nko1/gin.singleton.constructor = @c18.outer\nko1/c18.outer.deps = [@na0/gin.singleton(), @na1/gin.singleton(), @na2/gin.singleton()]\nc18.user_o2.x = @ko2/gin.singleton()\nko2/gin.singleton.constructor = @c18.outer\nko2/c18.outer.deps = [@nb0/gin.singleton(), @nb1/gin.singleton(), @nb2/gin.singleton()]\nna0/gin.singleton.constructor = @c18.Leaf\nnb0/gin.singleton.constructor = @c18.Leaf\nna1/gin.singleton.constructor = @c18.Leaf\nnb1/gin.singleton.constructor = @c18.Leaf\nna2/gin.singleton.constructor = @c18.Leaf\nnb2/gin.singleton.constructor = @c18.Leaf\n' + 'c18.user_w1.x = @ko1w/gin.singleton()\nko1w/gin.singleton.constructor = @c18.outer\nko1w/c18.outer.deps = [@wa0/gin.singleton(), @wa1/gin.singleton(), @wa2/gin.singleton(), @wa3/gin.singleton(), @wa4/gin.singleton(), @wa5/gin.singleton(), @wa6/gin.singleton(), @wa7/gin.singleton(), @wa8/gin.singleton(), @wa9/gin.singleton()]\nc18.user_w2.x = @ko2w/gin.singleton()\nko2w/gin.singleton.constructor = @c18.outer\nko2w/c18.outer.deps = [@wb0/gin.singleton(), @wb1/gin.singleton(), @wb2/gin.singleton(), @wb3/gin.singleton(), @wb4/gin.singleton(), @wb5/gin.singleton(), @wb6/gin.singleton(), @wb7/gin.singleton(), @wb8/gin.singleton(), @wb9/gin.singleton()]\nwa0/gin.singleton.constructor = @c18.Leaf\nwb0/gin.singleton.constructor = @c18.Leaf\nwa1/gin.singleton.constructor = @c18.Leaf\nwb1/gin.singleton.constructor = @c18.Leaf\nwa2/gin.singleton.constructor = @c18.Leaf\nwb2/gin.singleton.constructor = @c18.Leaf\nwa3/gin.singleton.constructor = @c18.Leaf\nwb3/gin.singleton.constructor = @c18.Leaf\nwa4/gin.singleton.constructor = @c18.Leaf\nwb4/gin.singleton.constructor = @c18.Leaf\nwa5/gin.singleton.constructor = @c18.Leaf\nwb5/gin.singleton.constructor = @c18.Leaf\nwa6/gin.singleton.constructor = @c18.Leaf\nwb6/gin.singleton.constructor = @c18.Leaf\nwa7/gin.singleton.constructor = @c18.Leaf\nwb7/gin.singleton.constructor = @c18.Leaf\nwa8/gin.singleton.constructor = @c18.Leaf\nwb8/gin.singleton.constructor = @c18.Leaf\nwa9/gin.singleton.constructor = @c18.Leaf\nwb9/gin.singleton.constructor = @c18.Leaf\n'
 
 
 def setup():
@@ -73,6 +73,45 @@ def setup():
   def make_none():
     COUNT['make_none'] = COUNT.get('make_none', 0) + 1
     return None
+
+  @gin.configurable(module='c18')
+  class Leaf:
+    def __init__(self):
+      k = 'Leaf@' + gin.current_scope_str()
+      COUNT[k] = COUNT.get(k, 0) + 1
+
+  class Out1:
+    pass
+
+  class Out2:
+    pass
+
+  @gin.configurable(module='c18')
+  def outer(deps=None):
+    """A singleton constructor that itself uses other singletons."""
+    k = 'outer@' + gin.current_scope_str()
+    COUNT[k] = COUNT.get(k, 0) + 1
+    o = (Out1 if 'ko1' in k else Out2)()      # ko1 / ko1w -> Out1, ko2 / ko2w -> Out2
+    o.deps = deps
+    return o
+
+  @gin.configurable(module='c18')
+  def user_o1(x='unset'):
+    return x
+
+  @gin.configurable(module='c18')
+  def user_o2(x='unset'):
+    return x
+
+  @gin.configurable(module='c18')
+  def user_w1(x='unset'):
+    return x
+
+  @gin.configurable(module='c18')
+  def user_w2(x='unset'):
+    return x
+  global USER_O1, USER_O2, USER_W1, USER_W2
+  USER_O1, USER_O2, USER_W1, USER_W2 = user_o1, user_o2, user_w1, user_w2
 
   @gin.configurable(module='c18')
   def user3(x='unset'):
@@ -147,14 +186,18 @@ HARNESSES = {
     'H6_three_users_same_singleton': lambda: [b_user('USER'), b_user('USER1B'), b_user('USER')],
     'H7_falsy_singleton': lambda: [b_user('USER3'), b_user('USER3B')],
     'H8_failed_singleton_probe+user': lambda: [b_probe_then_call, b_user('USER')],
+    # two singletons whose constructors use (disjoint sets of) further singletons, first used at the same time
+    'H9_nested_singleton_constructors': lambda: [b_user('USER_O1'), b_user('USER_O2')],
+    # the same with ten nested singletons per constructor (thorough tier only: long bodies)
+    'H10_nested_singleton_constructors_wide': lambda: [b_user('USER_W1'), b_user('USER_W2')],
 }
 
 
 def bound(tier):
   if tier == 'quick':
-    return ('threads: 8 harnesses (2-3 threads), all schedules with <=1 preemption at shared-state granularity plus <=3 (2 threads) / '
+    return ('threads: 9 harnesses (2-3 threads), all schedules with <=1 preemption at shared-state granularity plus <=3 (2 threads) / '
             '<=2 (3 threads) preemptions at points inside the code that touches the store concerned; sequential depth 4')
-  return ('threads: 8 harnesses, all schedules with <=2 preemptions at shared-state granularity and <=1 at '
+  return ('threads: 9 harnesses, all schedules with <=2 preemptions at shared-state granularity and <=1 at '
           'all-gin-lines granularity; sequential depth 6')
 
 
@@ -162,13 +205,21 @@ def plan(tier):
   """(harness, preemption bound, granularity) triples."""
   out = []
   for h in HARNESSES:
+    if h.startswith('H10') and tier == 'quick' and not os.environ.get('C18_WIDE'):
+      continue
     focus = 'focus:singleton,_SINGLETONS' if 'singleton' in h else 'focus:_OPERATIVE_CONFIG,operative'
     if tier == 'quick':
       out.append((h, 1, 'shared'))
+      if h.startswith(('H9', 'H10')):
+        continue          # long bodies: the preemption-bound-1 exploration at shared-state granularity only
       if len(HARNESSES[h]()) == 2:
         out.append((h, 3, focus))
       else:
         out.append((h, 2, focus))
+    elif h.startswith('H10'):
+      out.append((h, 1, 'shared'))
+    elif h.startswith('H9'):
+      out.append((h, 2, 'shared'))
     else:
       out.append((h, 4 if len(HARNESSES[h]()) == 2 else 3, focus))
       out.append((h, 2, 'shared'))
